@@ -17,8 +17,11 @@ from pathlib import Path
 
 VERIF = Path(__file__).resolve().parent.parent
 SPEC = VERIF / "spec"
-EVIDENCE = VERIF / "evidence"
-REPLAYS = VERIF / "replays"
+# a self-test against a deliberately broken scratch tree (selftest/try_patch.sh) must not overwrite the evidence of
+# the real tree: it redirects evidence and replays to a scratch directory
+_SCRATCH = os.environ.get("VERIF_SCRATCH_OUT")
+EVIDENCE = (Path(_SCRATCH) / "evidence") if _SCRATCH else VERIF / "evidence"
+REPLAYS = (Path(_SCRATCH) / "replays") if _SCRATCH else VERIF / "replays"
 REPO = Path(os.environ.get("QUANSINO_REPO", "/repo"))
 PY = "/venv/bin/python"
 
@@ -155,7 +158,7 @@ class Report:
             "wall_s": round(time.time() - self.t0, 2),
             "violations": len(self.violations),
         }
-        EVIDENCE.mkdir(exist_ok=True)
+        EVIDENCE.mkdir(parents=True, exist_ok=True)
         (EVIDENCE / f"{self.prop}.json").write_text(json.dumps(ev, indent=1) + "\n")
         for sig, v in self.known_hits.items():
             print(f"KNOWN-FINDING: property={self.prop} {v['what']} [signature={sig}; seen {v['n']}x]")
